@@ -5,6 +5,6 @@
 Require Extraction.
 Require Import ExtrOcamlBasic.
 From Coq Require Import NArith List.
-From TV Require Import LayoutCases PtrCases Mech CmpCases Ctor Serde.
+From TV Require Import LayoutCases PtrCases Mech CmpCases Ctor Serde SchedCases.
 Extraction Language OCaml.
-Extraction "model.ml" LayoutCases.run_layout PtrCases.run_ptr Mech.run_mech CmpCases.run_cmp Ctor.run_ctor Serde.run_serde N.add N.mul N.div_eucl N.of_nat N.to_nat.
+Extraction "model.ml" LayoutCases.run_layout PtrCases.run_ptr Mech.run_mech CmpCases.run_cmp Ctor.run_ctor Serde.run_serde SchedCases.run_sched N.add N.mul N.div_eucl N.of_nat N.to_nat.
